@@ -8,6 +8,7 @@ import Drx.VwscSpec
 import DrxProofs.Vwsc
 import DrxProofs.VwscFields
 import DrxProofs.VwscFrames
+import DrxProofs.VwscSteps
 namespace Drx.C08
 open Drx Drx.Vwsc Drx.Vwsc.Spec Drx.VwscLayout
 
@@ -147,6 +148,19 @@ theorem decode_fields_d5 (c : Container) (f : ScoreFile) (h : f.Valid) (hc : c.V
         simp only [framesOf, h1, parseChannels_d5 x (hv x (by simp)), List.map_cons]
         rw [ih (fun r hr' => hv r (by simp [hr'])) _ rs h2]
   exact key raws hr _ _ hseq
+
+/-! ## termination and work of the record loop (used by the C10 check through `drx_score steps`) -/
+
+/-- The model of the record loop is defined without fuel (Lean accepts `recLoop` only with the proof that every record
+    advances the index, which needs sizes >= 2: F35). On ANY byte string its counting twin makes at most one iteration per
+    two input bytes. -/
+theorem record_loop_bounded (d : Bytes) : (parseVwscSteps d).1.records ≤ d.length / 2 :=
+  parseVwscSteps_records_le d
+
+/-- the twin counts the loop that builds the result: on success its record count is the number of frames returned -/
+theorem steps_twin_counts_frames (d : Bytes) (frames : List Frame) (h : parseVwsc d = .ok frames) :
+    (parseVwscSteps d).1.records = frames.length :=
+  parseVwscSteps_records_eq d frames h
 
 /-! ## the hypotheses are satisfiable on non-trivial objects -/
 
